@@ -55,23 +55,28 @@ VALUES = {
 
 _PKGS = {}
 _META = {}
-with opened_auditwall():
-    _BASE = tempfile.mkdtemp(prefix="vh03_", dir="/tmp")
-    for _async in (False, True):
-        for _snake in (True, False):
-            _name = f"p03_{int(_async)}{int(_snake)}"
-            _r = gen.generate({"schema": SDL, "queries": OPS, "config": {"async_client": _async, "convert_to_snake_case": _snake, "target_package_name": _name}})
-            assert _r["ok"], _r
-            _d = os.path.join(_BASE, _name)
-            os.makedirs(_d)
-            for _fn, _src in _r["files"].items():
-                with open(os.path.join(_d, _fn), "w") as _f:
-                    _f.write(_src)
-            _META[(_async, _snake)] = {m.operation_name: m for m in Package(_r["files"], _name).client_methods()}
-    sys.path.insert(0, _BASE)
-    for _async in (False, True):
-        for _snake in (True, False):
-            _PKGS[(_async, _snake)] = importlib.import_module(f"p03_{int(_async)}{int(_snake)}")
+SETUP_ERROR = ""
+try:
+    with opened_auditwall():
+        _BASE = tempfile.mkdtemp(prefix="vh03_", dir="/tmp")
+        for _async in (False, True):
+            for _snake in (True, False):
+                _name = f"p03_{int(_async)}{int(_snake)}"
+                _r = gen.generate({"schema": SDL, "queries": OPS, "config": {"async_client": _async, "convert_to_snake_case": _snake, "target_package_name": _name}})
+                if not _r["ok"]:
+                    raise RuntimeError(f"generation failed: {_r['exc_type']}: {_r['exc_msg']}")
+                _d = os.path.join(_BASE, _name)
+                os.makedirs(_d)
+                for _fn, _src in _r["files"].items():
+                    with open(os.path.join(_d, _fn), "w") as _f:
+                        _f.write(_src)
+                _META[(_async, _snake)] = {m.operation_name: m for m in Package(_r["files"], _name).client_methods()}
+        sys.path.insert(0, _BASE)
+        for _async in (False, True):
+            for _snake in (True, False):
+                _PKGS[(_async, _snake)] = importlib.import_module(f"p03_{int(_async)}{int(_snake)}")
+except Exception as _e:
+    SETUP_ERROR = f"{type(_e).__name__}: {_e}"
 
 from graphql import GraphQLNonNull, build_schema, parse, type_from_ast  # noqa: E402
 from graphql.execution.values import get_variable_values  # noqa: E402
@@ -162,6 +167,8 @@ def required_without_default(is_async, snake, opname):
 
 
 def _check(is_async, snake, op, s0, s1, s2):
+    if SETUP_ERROR:
+        return False
     opname = OPNAMES[pick(op, len(OPNAMES))]
     vs = var_states(opname)
     sel = []
@@ -224,6 +231,8 @@ def twin_nested_model_sent(op: int, s0: int, s1: int, s2: int) -> bool:
     """
     post: _
     """
+    if SETUP_ERROR:
+        return True
     opname = OPNAMES[pick(op, len(OPNAMES))]
     vs = var_states(opname)
     sel = [states[pick(s, len(states))] for (name, states), s in zip(vs, (s0, s1, s2))]
